@@ -127,25 +127,33 @@ func (e *Engine) Solve(o *Obligation, solvers []string, timeout time.Duration, d
 		v.By = "simplifier"
 		return v
 	}
-	facts := o.ctx.facts[:o.NFacts]
-	if !e.NoPrune {
-		facts = relevantFacts(facts, o.Goal)
-	}
-	queries := map[string]string{}
-	for _, s := range solvers {
-		kind := "z3"
-		if s == "cvc5" {
-			kind = "cvc5"
+	queries, err := func() (map[string]string, error) {
+		e.qmu.Lock() // query construction may extend the (shared) definition tables
+		defer e.qmu.Unlock()
+		facts := o.ctx.facts[:o.NFacts]
+		if !e.NoPrune {
+			facts = relevantFacts(facts, o.Goal)
 		}
-		if _, ok := queries[kind]; !ok {
-			q, err := e.BuildQuery(facts, o.Goal, kind, o.LenBound)
-			if err != nil {
-				v.Status = "error"
-				v.Err = err.Error()
-				return v
+		qs := map[string]string{}
+		for _, s := range solvers {
+			kind := "z3"
+			if s == "cvc5" {
+				kind = "cvc5"
 			}
-			queries[kind] = q
+			if _, ok := qs[kind]; !ok {
+				q, err := e.BuildQuery(facts, o.Goal, kind, o.LenBound)
+				if err != nil {
+					return nil, err
+				}
+				qs[kind] = q
+			}
 		}
+		return qs, nil
+	}()
+	if err != nil {
+		v.Status = "error"
+		v.Err = err.Error()
+		return v
 	}
 	if dumpDir != "" {
 		fn := filepath.Join(dumpDir, sanitizeFile(o.Name)+".smt2")
